@@ -78,7 +78,10 @@ def run_case(cs, ctx):
     bad_dup = len(set(positions)) != len(positions)
     bad_stab = stab and not twopl
     invalid = bad_range or bad_dup or bad_stab
-    opts = {'twopl': twopl, 'stab': stab, 'pc': pc, 'crits': crits}
+    bf = rng.random() < 0.12
+    opts = {'twopl': twopl, 'stab': stab, 'pc': pc, 'crits': crits, 'bf': bf}
+    if bf:
+        ctx.cov('with_bf_flag')
     text = sp.render(spec, rng=rng, second_side=True, noise=False)
     path = en.write_file(ctx.workdir, text)
     flags = sp.opts_to_argv(opts, rng)
@@ -135,7 +138,7 @@ def run_case(cs, ctx):
     if got != want:
         ctx.finding(en.F('C16', 'parser_order', 'optimisation_options = %s, expected %s from positions %s' % (
             got, want, [(c[0], c[1]) for c in crits])), case)
-    flag_names = [a[1:] for a in flags if a[1:] in sp.CRITS]
+    flag_names = [sp.crit_of_flag(a) for a in flags if sp.crit_of_flag(a)]
     if len(crits) >= 2 and flag_names != [w[0] for w in want]:
         ctx.nontrivial(sp.shash([flags]))
         ctx.cov('flag_order_differs_from_position_order')
@@ -153,7 +156,7 @@ def run_case(cs, ctx):
     except BaseException as e:
         ctx.finding(en.F('C16', 'flag_permutation', 'permuted flags %s refused: %s' % (flags2, e)), case)
     # (ii) order of the optimisation lines in the results
-    if cs % 3 == 0:
+    if cs % 3 == 0 and not bf:
         ex = en.run_lp(spec, opts, ctx.workdir, rng, inject=False, getters=('short',), text=text, argv=argv)
         ref = en.reference(spec, opts)
         cnt = {}
@@ -168,6 +171,21 @@ def run_case(cs, ctx):
             after = observed_order(ex['solver'])
             if after != want:
                 ctx.finding(en.F('C16', 'extras_kept_after_solve', 'after solve() optimisation_options = %s, expected %s' % (after, want)), case)
+            # a second solve performs and reports the same criteria, once
+            if cs % 6 == 0 and ex['exc'] is None:
+                try:
+                    ex['solver'].solve()
+                    txt = ex['solver'].get_results()
+                    pr = op.parse_results(txt)
+                    lines = [l for l in pr['info'] if l.startswith('optimisation:')]
+                    exp_kw = [rm.INFO_KEYWORDS[c[0]] for c in rm.expected_order(crits)]
+                    ctx.cnt('second_solve_reports_judged')
+                    ok = (len(lines) <= len(exp_kw) and all(k in l for k, l in zip(exp_kw, lines)) and
+                          (pr['status'] != 'Optimal' or len(lines) == len(exp_kw)))
+                    if not ok:
+                        ctx.finding(en.F('C16', 'info_order_after_resolve', 'after a second solve() the results list %s, expected %s' % (lines, exp_kw)), case)
+                except Exception as e:
+                    ctx.cnt('second_solve_unobservable')
         if facts.get('status') and facts['status'] != 'Optimal' and crits:
             ctx.cov('non_optimal_prefix_runs')
     ctx.sample({'argv': case['argv'], 'parsed_order': got}, cap=3)
